@@ -6,4 +6,7 @@ mkdir -p .bin evidence replays
 (cd harness && go build -o ../.bin/xv-setup ./cmd/xv) || exit 1
 ./.bin/xv-setup selftest || exit 1
 rm -f .bin/xv-setup
+# warm the -race build cache (used by the auxiliary pass of C14) and the build of the command line tool
+(cd harness && go build -race -o ../.bin/xv-race-setup ./cmd/xv && go build -o ../.bin/xsel-setup github.com/ChrisTrenkamp/xsel/xsel) || echo "warning: race/CLI warm-up build failed" >&2
+rm -f .bin/xv-race-setup .bin/xsel-setup
 echo setup ok
